@@ -3,6 +3,7 @@ package rules
 import (
 	"fmt"
 	"go/token"
+	"go/types"
 	"strings"
 
 	"golang.org/x/tools/go/ssa"
@@ -18,7 +19,7 @@ func init() {
 const putP = "pkg/services/object/put."
 
 func runC25(p *core.Prog, r *core.Report) {
-	r.Explain = "Decides the counting structure behind 'acknowledged', on all CFG paths: (R1) a node's 'succeeded' flag is set only from the nil error of the send to that node, and the per-list stored counter is increased only for such a node (in the sender on err==nil, or in the rule handler for a node already recorded as succeeded in an earlier list); an EC part reports success only after a node accepted it; (R2) the REP rule handler returns nil only when the stored counter reached the maximum, or — after the shortage test 'remaining nodes < still required' was false — when the list is exhausted; an EC rule succeeds only when every part's goroutine succeeded; (R3) none of the unsigned subtractions in the handler and in the limit arithmetic of saveObject can wrap; (R4) without an initial policy the handler is asked for exactly the rule's replica number as both minimum and maximum; (R5) inside saveObject the per-rule limit tables (repRules, ecLimits) are indexed only by a loop over that same table or through the rule-order mapping getRuleIdx — the sum of remaining limits and the main loop must agree on which rule a processing position denotes; (R6) saveObject returns nil only after the rule loop and the metadata submission. Not covered: the min/max/limit arithmetic itself across several rules (value-level), distinctness of nodes across overlapping lists under concurrency."
+	r.Explain = "Decides the counting structure behind 'acknowledged', on all CFG paths: (R1) a node's 'succeeded' flag is set only from the nil error of the send to that node, and the per-list stored counter is increased only for such a node (in the sender on err==nil, or in the rule handler for a node already recorded as succeeded in an earlier list); an EC part reports success only after a node accepted it; (R2) the REP rule handler returns nil only when the stored counter reached the maximum, or — after the shortage test 'remaining nodes < still required' was false — when the list is exhausted; an EC rule succeeds only when every part's goroutine succeeded; (R3) none of the unsigned subtractions in the handler and in the limit arithmetic of saveObject can wrap; (R4) without an initial policy the handler is asked for exactly the rule's replica number as both minimum and maximum; (R5) inside saveObject the per-rule limit tables (repRules, ecLimits) are indexed only by a loop over that same table or through the rule-order mapping getRuleIdx — the sum of remaining limits and the main loop must agree on which rule a processing position denotes; (R6) saveObject returns nil only after the rule loop and the metadata submission; (R7) the per-rule progress trackers keep 'look at the taken nodes / counters, decide, record' inside one exclusive critical section of their mutex, so two part goroutines cannot both reserve one node. Not covered: the min/max/limit arithmetic itself across several rules (value-level), distinctness of nodes across overlapping lists beyond that reservation."
 	fns := p.FuncsIn("pkg/services/object/put")
 	// ---------------- R1
 	r1 := r.Rule("C25.R1", "succeeded only from a nil send error; stored++ only for a succeeded node; EC part success only after a node accepted it", 5)
@@ -242,7 +243,7 @@ func runC25(p *core.Prog, r *core.Report) {
 		r4.Check(phiHas(a[4]) && phiHas(a[5]), core.FuncName(so)+"#handleREPRule(min,max)", p.InstrPos(s.Call), "on the uncapped path min = max = repRules[rule]", "the uncapped path no longer passes the rule's replica number as both minimum and maximum")
 	}
 	// ---------------- R5 index discipline
-	r5 := r.Rule("C25.R5", "rule tables are indexed by a loop over the same table or through getRuleIdx", 4)
+	r5 := r.Rule("C25.R5", "rule tables (replica numbers, EC limits, per-rule node lists) are indexed by a rule number: a loop over the same table, getRuleIdx, or len(repRules)+EC rule number — never by a processing position", 8)
 	ruleIdxFn := func() *ssa.Function {
 		for _, a := range so.AnonFuncs {
 			// getRuleIdx: func(int) int that indexes ruleOrder
@@ -278,6 +279,10 @@ func runC25(p *core.Prog, r *core.Report) {
 						why = "loop over the same table"
 					case isConstIdx(ia.Index):
 						why = "constant index"
+					case tbl == "objNodeLists" && isIdxParamOK(ia.Index):
+						why = "len(repRules) + EC rule number"
+					case tbl == "objNodeLists" && fn.Signature.Params().Len() == 2 && fn.Signature.Results().Len() == 1 && core.ParamIndex(fn, ia.Index) >= 0 && fn.Parent() != nil:
+						why = "comparator of the rule-order sort: its arguments are elements of the rule order, i.e. rule numbers"
 					}
 					key := fmt.Sprintf("%s#%s[...]", core.FuncName(fn), tbl)
 					if why != "" {
@@ -290,6 +295,10 @@ func runC25(p *core.Prog, r *core.Report) {
 		}
 	}
 	// ---------------- R6 success only after the loop and metadata submission
+	r7 := r.Rule("C25.R7", "progress trackers: a method that reads a mutex-protected field to decide and then writes it does both inside one exclusive critical section (node reservation is atomic)", 2)
+	if guardedFieldsAtomic(p, r7, "pkg/services/object/put") == 0 {
+		r.Fatalf("C25.R7: no read-decide-write method on a mutex-protected tracker found (ecProgress.canTryNode expected)")
+	}
 	r6 := r.Rule("C25.R6", "saveObject reports success only after metadata submission succeeded (or through the delegated paths' own results)", 1)
 	core.CheckSuccessFn(p, r6, so, core.SuccessRule{ResultIdx: -1, MinReturns: 1, Guards: []core.Guard{
 		core.G("meta-submitted", core.ErrNil, "(*"+putP+"distributedTarget).submitMetaCollection"),
@@ -412,7 +421,7 @@ func tableName(fn *ssa.Function, v ssa.Value) string {
 
 func tblOf(n string) string {
 	switch n {
-	case "repRules", "ecLimits":
+	case "repRules", "ecLimits", "objNodeLists":
 		return n
 	}
 	return ""
@@ -500,7 +509,18 @@ func isParamDerived(fn *ssa.Function, idx ssa.Value, fromMapping func(ssa.Value)
 	return n > 0
 }
 
-func isIdxParamOK(v ssa.Value) bool { return false }
+// isIdxParamOK: `len(repRules) + k` — the rule number of EC rule k in the combined rule numbering.
+func isIdxParamOK(v ssa.Value) bool {
+	bo, ok := v.(*ssa.BinOp)
+	if !ok || bo.Op != token.ADD {
+		return false
+	}
+	isLenRep := func(x ssa.Value) bool {
+		c, isC := x.(*ssa.Call)
+		return isC && core.CalleeName(c) == "builtin.len" && (cellNameOf(c.Call.Args[0]) == "repRules" || cellNameOf(c.Call.Args[0]) == "fullRepRules")
+	}
+	return isLenRep(bo.X) || isLenRep(bo.Y)
+}
 
 func closureFnOfCallee(c *ssa.Call) *ssa.Function {
 	switch x := c.Call.Value.(type) {
@@ -590,4 +610,135 @@ func cellNameOf(v ssa.Value) string {
 		}
 	}
 	return ""
+}
+
+// guardedFieldsAtomic: in package pkgPath, for every struct type with a sync.Mutex / sync.RWMutex field: a method that
+// WRITES another field of the struct must keep all its accesses of that field (the read that decides and the write
+// that reserves) inside one exclusive critical section — a check under one lock hold and the update under another is
+// a race that no test and no race detector sees.
+func guardedFieldsAtomic(p *core.Prog, h *core.RuleH, pkgPath string) int {
+	n := 0
+	isMutexT := func(t string) bool { return t == "sync.Mutex" || t == "sync.RWMutex" }
+	for _, fn := range p.FuncsIn(pkgPath) {
+		if fn.Signature.Recv() == nil || len(fn.Params) == 0 || fn.Blocks == nil {
+			continue
+		}
+		pt, ok := fn.Params[0].Type().(*types.Pointer)
+		if !ok {
+			continue
+		}
+		st, ok := pt.Elem().Underlying().(*types.Struct)
+		if !ok {
+			continue
+		}
+		mu := -1
+		for i := 0; i < st.NumFields(); i++ {
+			if isMutexT(st.Field(i).Type().String()) {
+				mu = i
+			}
+		}
+		if mu < 0 {
+			continue
+		}
+		recv := fn.Params[0]
+		// accesses per field, lock/unlock calls on the mutex field
+		acc := map[int][]ssa.Instruction{}
+		written := map[int]bool{}
+		var locks, unlocks []ssa.Instruction
+		for _, b := range fn.Blocks {
+			for _, in := range b.Instrs {
+				switch x := in.(type) {
+				case *ssa.FieldAddr:
+					if x.X != recv || x.Field == mu || x.Referrers() == nil {
+						continue
+					}
+					for _, ref := range *x.Referrers() {
+						switch u := ref.(type) {
+						case *ssa.Store:
+							if u.Addr == x {
+								written[x.Field] = true
+								acc[x.Field] = append(acc[x.Field], u)
+							}
+						case *ssa.UnOp:
+							acc[x.Field] = append(acc[x.Field], u)
+						}
+					}
+				case *ssa.Call:
+					cn := core.CalleeName(x)
+					if len(x.Call.Args) == 0 {
+						continue
+					}
+					fa, isFA := x.Call.Args[0].(*ssa.FieldAddr)
+					if !isFA || fa.X != recv || fa.Field != mu {
+						continue
+					}
+					switch cn {
+					case "(*sync.Mutex).Lock", "(*sync.RWMutex).Lock":
+						locks = append(locks, x)
+					case "(*sync.Mutex).Unlock", "(*sync.RWMutex).Unlock", "(*sync.RWMutex).RUnlock":
+						unlocks = append(unlocks, x)
+					}
+				}
+			}
+		}
+		before := func(a, b ssa.Instruction) bool { // a can execute before b
+			if a.Block() == b.Block() {
+				for _, in := range a.Block().Instrs {
+					if in == a {
+						return true
+					}
+					if in == b {
+						return inCycle(a.Block())
+					}
+				}
+			}
+			return reaches(a.Block(), b.Block())
+		}
+		for f := range written {
+			as := acc[f]
+			if len(as) < 2 {
+				continue // a blind write: nothing decided on the old value here
+			}
+			n++
+			id := core.FuncName(fn) + "#" + st.Field(f).Name()
+			pos := fn.Prog.Fset.Position(as[0].Pos()).String()
+			pos = p.InstrPos(as[0])
+			okLock := false
+			for _, l := range locks {
+				all := true
+				for _, a := range as {
+					if !(l.Block().Dominates(a.Block()) && before(l, a)) {
+						all = false
+					}
+				}
+				if all {
+					okLock = true
+				}
+			}
+			split := ""
+			for _, u := range unlocks {
+				var pre, post bool
+				for _, a := range as {
+					if before(a, u) {
+						pre = true
+					}
+					if before(u, a) {
+						post = true
+					}
+				}
+				if pre && post {
+					split = p.InstrPos(u)
+				}
+			}
+			why := ""
+			switch {
+			case !okLock:
+				why = "the accesses of " + st.Field(f).Name() + " are not all made under one exclusive Lock of the struct's mutex"
+			case split != "":
+				why = "the mutex is released (" + split + ") between the read of " + st.Field(f).Name() + " that decides and the write that records the decision: two goroutines can both pass the check before either records it"
+			}
+			h.Check(why == "", id+"!one-critical-section", pos, "read-decide-write of the field happens inside one exclusive critical section", why)
+		}
+	}
+	return n
 }
